@@ -14,6 +14,7 @@ import (
 	"fmt"
 	"go/token"
 	"go/types"
+	"strconv"
 	"strings"
 
 	"golang.org/x/tools/go/ssa"
@@ -597,6 +598,27 @@ func ruleEscaperComplex(r *Run, p *Prog, rule string, g *ssa.Function, textIdx i
 		}
 		r.Ob(rule, name+"/iter#"+itoa(i), p.Pos(firstPos(pa.blocks)), ok, true, d)
 		iterInfos = append(iterInfos, iterInfo{pa, hasE})
+		if hasE {
+			// what the iteration emits denotes the character it replaces
+			isR := func(v ssa.Value) bool { return fromDecode(v, 0) }
+			badEsc := ""
+			var escPos token.Pos
+			for _, b := range pa.blocks {
+				for _, in := range b.Instrs {
+					if !isBackslashAppend(in) {
+						continue
+					}
+					if why := escapeDenotes(in.(*ssa.Call), cs, isB, isR); why != "" && badEsc == "" {
+						badEsc, escPos = why, in.Pos()
+					}
+				}
+			}
+			if badEsc != "" {
+				r.Ob(rule, name+"/escape#"+itoa(i), p.Pos(escPos), false, true, "the escape sequence emitted here does not denote the character it replaces ("+badEsc+"): the logged string decodes to a different string")
+			} else {
+				r.Ob(rule, name+"/escape#"+itoa(i), p.Pos(firstPos(pa.blocks)), true, true, "the escape emitted denotes the escaped character (short escape for that byte, \\u00XX with the byte's two hex digits, or U+FFFD for an invalid sequence)")
+			}
+		}
 	}
 	if nEsc == 0 || nSafe == 0 {
 		r.Fail(rule, name+"/iter-kinds", p.Pos(g.Pos()), "the escaper loop has no escaping iteration or no safe-byte iteration (rule lost its grip)")
@@ -686,6 +708,232 @@ func ruleEscaperComplex(r *Run, p *Prog, rule string, g *ssa.Function, textIdx i
 		r.Fail(rule, name+"/start", p.Pos(g.Pos()), "pending-run start variable not found as a loop phi")
 	}
 	r.Count(rule+"_iter_paths", len(paths))
+}
+
+// escapeDenotes checks one escape append of an escaping iteration against the comparisons cs that
+// hold on the iteration: "" if the sequence is a JSON escape of the character being replaced.
+//
+//	`\\ufffd`                       only where the rune decoder reported an invalid sequence
+//	'\\', c  (c one of b f n r t)    only where the byte is pinned to the control character c names
+//	'\\', <the byte itself>         only where the byte is pinned to '"', '\\' or '/'
+//	'\\','u',d1,d2,d3,d4            the four hex digits spell the value: evaluated when the byte/rune is
+//	                                pinned to a constant on this path, otherwise exactly 0,0,hex[b>>4],hex[b&0xF]
+//
+// strIndex: v is tab[idx] on a string (go/ssa uses Index or Lookup depending on the operand)
+func strIndex(v ssa.Value) (tab, idx ssa.Value, ok bool) {
+	switch x := v.(type) {
+	case *ssa.Lookup:
+		return x.X, x.Index, true
+	case *ssa.Index:
+		return x.X, x.Index, true
+	}
+	return nil, nil, false
+}
+
+func escapeDenotes(c *ssa.Call, cs []Cmp, isB, isR func(ssa.Value) bool) string {
+	// value the escaped unit is pinned to on this path
+	pinned := map[ssa.Value]int64{}
+	var pinB, pinR *int64
+	invalidSeq := false
+	for _, cm := range cs {
+		n, ok := constInt(cm.Y)
+		if !ok {
+			continue
+		}
+		x := cm.X
+		if cm.Op == token.EQL {
+			if isB(x) {
+				v := n
+				pinB = &v
+				pinned[x] = n
+			}
+			if isR(x) {
+				v := n
+				pinR = &v
+				pinned[x] = n
+				if n == 0xFFFD {
+					invalidSeq = true
+				}
+			}
+		}
+		if ex, isEx := x.(*ssa.Extract); isEx && ex.Index == 1 && cm.Op == token.EQL && n == 1 {
+			invalidSeq = true // size == 1 from the rune decoder
+		}
+	}
+	// a path that pins the byte to a value and also excludes that value is infeasible (the guard
+	// `b == '\\'` taken, then the switch's `case '\\'` not taken)
+	for _, cm := range cs {
+		if n, ok := constInt(cm.Y); ok && cm.Op == token.NEQ {
+			if (isB(cm.X) && pinB != nil && *pinB == n) || (isR(cm.X) && pinR != nil && *pinR == n) {
+				return ""
+			}
+		}
+	}
+	// every read of the escaped byte / decoded rune in an expression takes the pinned value
+	var bindUnits func(e *miniEnv, v ssa.Value, depth int)
+	bindUnits = func(e *miniEnv, v ssa.Value, depth int) {
+		if depth > 6 || v == nil {
+			return
+		}
+		if isB(v) && pinB != nil {
+			e.vals[v] = *pinB
+			return
+		}
+		if isR(v) && pinR != nil {
+			e.vals[v] = *pinR
+			return
+		}
+		if in, ok := v.(ssa.Instruction); ok {
+			for _, op := range in.Operands(nil) {
+				if op != nil && *op != nil {
+					bindUnits(e, *op, depth+1)
+				}
+			}
+		}
+	}
+	shortOf := map[int64]int64{'b': 8, 'f': 12, 'n': 10, 'r': 13, 't': 9}
+	spread, elems := appendElems(c)
+	if spread != nil {
+		str, _ := constString(spread)
+		switch {
+		case strings.EqualFold(str, `\ufffd`):
+			if !invalidSeq {
+				return "the replacement character is emitted where the input was not found invalid"
+			}
+			return ""
+		case len(str) == 2 && str[0] == '\\':
+			if want, ok := shortOf[int64(str[1])]; ok && pinB != nil && *pinB == want {
+				return ""
+			}
+			if (str[1] == '"' || str[1] == '\\' || str[1] == '/') && pinB != nil && *pinB == int64(str[1]) {
+				return ""
+			}
+		}
+		return "constant escape " + strconv.Quote(str) + " on a path that does not pin the byte to the character it names"
+	}
+	if len(elems) < 2 {
+		return "a lone backslash"
+	}
+	if len(elems) == 2 {
+		if k, ok := constInt(elems[1]); ok {
+			if want, isShort := shortOf[k]; isShort && pinB != nil && *pinB == want {
+				return ""
+			}
+			if (k == '"' || k == '\\' || k == '/') && pinB != nil && *pinB == k {
+				return ""
+			}
+			return "short escape \\" + string(rune(k)) + " on a path that does not pin the byte to the character it names"
+		}
+		v := elems[1]
+		for {
+			if cv, ok := v.(*ssa.Convert); ok {
+				v = cv.X
+				continue
+			}
+			break
+		}
+		if isB(v) && pinB != nil && (*pinB == '"' || *pinB == '\\' || *pinB == '/') {
+			return ""
+		}
+		return "a backslash followed by " + descr(elems[1]) + " where the byte is not known to be a quote, backslash or slash"
+	}
+	if len(elems) != 6 {
+		return "an escape of " + itoa(len(elems)) + " bytes"
+	}
+	if u, ok := constInt(elems[1]); !ok || u != 'u' {
+		return "a six byte escape that is not \\uXXXX"
+	}
+	hexDigit := func(ch int64) (int64, bool) {
+		switch {
+		case ch >= '0' && ch <= '9':
+			return ch - '0', true
+		case ch >= 'a' && ch <= 'f':
+			return ch - 'a' + 10, true
+		case ch >= 'A' && ch <= 'F':
+			return ch - 'A' + 10, true
+		}
+		return 0, false
+	}
+	var pin *int64
+	if pinR != nil {
+		pin = pinR
+	} else if pinB != nil {
+		pin = pinB
+	}
+	if pin != nil {
+		// evaluate the four digits for the pinned value
+		e := &miniEnv{vals: map[ssa.Value]int64{}}
+		for k, v := range pinned {
+			e.vals[k] = v
+		}
+		got := int64(0)
+		for _, d := range elems[2:] {
+			var ch int64
+			if k, ok := constInt(d); ok {
+				ch = k
+			} else if tv, iv, ok := strIndex(d); ok {
+				tab, isS := constString(tv)
+				bindUnits(e, iv, 0)
+				idx, okI := e.eval(iv, 0)
+				if !isS || !okI || idx < 0 || int(idx) >= len(tab) {
+					return "a hex digit that cannot be evaluated: " + descr(d)
+				}
+				ch = int64(tab[idx])
+			} else {
+				return "a hex digit that cannot be evaluated: " + descr(d)
+			}
+			hv, ok := hexDigit(ch)
+			if !ok {
+				return "a digit that is not hexadecimal"
+			}
+			got = got*16 + hv
+		}
+		if got != *pin {
+			return fmt.Sprintf("\\u%04x is written for U+%04X", got, *pin)
+		}
+		return ""
+	}
+	// the general arm: \u00XX of the byte
+	for _, d := range elems[2:4] {
+		if k, ok := constInt(d); !ok || k != '0' {
+			return "the general \\u escape does not start with 00"
+		}
+	}
+	digit := func(d ssa.Value, op token.Token, k int64) bool {
+		tv, idx, ok := strIndex(d)
+		if !ok {
+			return false
+		}
+		tab, isS := constString(tv)
+		if !isS || !strings.EqualFold(tab, "0123456789abcdef") {
+			return false
+		}
+		for {
+			if cv, ok := idx.(*ssa.Convert); ok {
+				idx = cv.X
+				continue
+			}
+			break
+		}
+		bo, ok := idx.(*ssa.BinOp)
+		if !ok || bo.Op != op {
+			return false
+		}
+		n, isN := constInt(bo.Y)
+		x := bo.X
+		for {
+			if cv, ok := x.(*ssa.Convert); ok {
+				x = cv.X
+				continue
+			}
+			break
+		}
+		return isN && n == k && isB(x)
+	}
+	if !digit(elems[4], token.SHR, 4) || !digit(elems[5], token.AND, 0xF) {
+		return "the two hex digits are not hex[b>>4], hex[b&0xF] of the escaped byte: " + descr(elems[4]) + " / " + descr(elems[5])
+	}
+	return ""
 }
 
 // ruleEscaperRebased: the pending-run rules for the re-based form of the escaper loop, in which
